@@ -239,6 +239,36 @@ def h_driver(ctx, driver, N, M, m, kind='vector', smooth=None):
         raise KeyError(driver)
 
 
+def h_complex_seeds(ctx):
+    """complex seed points and complex directions at real (and integer) points: the polynomial
+    x0^2 x1 + x1^3 + 2 x0 has the same closed-form derivatives over C; nothing is truncated to its
+    real part.  Concrete numbers: decided on the float build."""
+    algopy = symx.load_algopy()
+    UTPM = algopy.UTPM
+    if ctx.mode == 'sym':
+        ctx.fact(True, 'complex seeds: decided on the float build')
+        ctx.eq(S.const(0), S.const(0), 'drivers at complex seeds')
+        return
+    f = lambda x: x[0] * x[0] * x[1] + x[1] * x[1] * x[1] + 2. * x[0]
+    grad = lambda a, b: np.array([2 * a * b + 2., a * a + 3 * b * b])
+    hess = lambda a, b: np.array([[2 * b, 2 * a], [2 * a, 6 * b]])
+    for label, x, v in (('complex point, complex direction', np.array([1 + 2j, 3 - 1j]), np.array([0.5 - 1j, 2 + 0.25j])),
+                        ('real point, complex direction', np.array([1.5, -2.0]), np.array([0.5 - 1j, 2 + 0.25j])),
+                        ('integer point, complex direction', np.array([1, 3]), np.array([1j, 2.0 + 0j])),
+                        ('complex point, real direction', np.array([1 + 2j, 3 - 1j]), np.array([0.5, -2.0]))):
+        a, b = complex(x[0]), complex(x[1])
+        same = lambda got, ref, what: ctx.eq(np.asarray(got, dtype=complex), np.asarray(ref, dtype=complex), '%s: %s' % (label, what))
+        try:
+            same(UTPM.extract_jacobian(f(UTPM.init_jacobian(x))), grad(a, b), 'jacobian')
+            same(UTPM.extract_jac_vec(f(UTPM.init_jac_vec(x, v))), grad(a, b).dot(v), 'jac_vec')
+            same(UTPM.extract_hessian(2, f(UTPM.init_hessian(x))), hess(a, b), 'hessian')
+            same(UTPM.extract_hess_vec(2, f(UTPM.init_hess_vec(x, v))), hess(a, b).dot(v), 'hess_vec')
+            T = UTPM.extract_tensor(2, f(UTPM.init_tensor(2, x)))
+            same(T, hess(a, b), 'tensor of order 2')
+        except Exception as e:
+            ctx.fact(False, '%s raised %s: %s' % (label, type(e).__name__, str(e)[:80]))
+
+
 def h_matrix_seed(ctx, driver, layout):
     """the seed point is a 2x2 matrix (C-ordered, or a transposed = Fortran-ordered view): the
     drivers flatten it in row-major INDEX order, so the derivatives refer to numpy.ravel(X)"""
@@ -511,6 +541,7 @@ def units(tier, seed):
         add('%s/integer-typed point' % drv, 'h_intpoint', o={'validate': False}, driver=drv, N=2)
     for drv in ('tensor', 'tensor(list)', 'tensor(int32)'):
         add('%s/integer-typed point' % drv, 'h_intpoint', o={'validate': False}, driver=drv, N=2)
+    add('complex seed points and directions (float-decided)', 'h_complex_seeds')
     for layout in ('C', 'F'):
         add('hessian/matrix-shaped seed point/%s layout' % layout, 'h_matrix_seed', driver='hessian', layout=layout)
     for (N, d) in ([(1, 2), (2, 2), (2, 3), (3, 2), (2, 4)] if tier == 'quick' else
